@@ -34,6 +34,7 @@ AXES = [
     ('raw_extra_channels', [0, 2]),
     ('raw_offset', [0, 7]),
     ('raw_files', [1, 2]),
+    ('raw_format', ['dat', 'npy', 'cbin']),
     ('templates', ['dense', 'sparse']),
     ('id_dtype', ['int32', 'uint32', 'int64', 'uint16']),
     ('time_dtype', ['uint64', 'int64']),
